@@ -349,6 +349,8 @@ func (r *runS) release(t *Thread) {
 		if t.LastKind == "send" {
 			r.emit(&stepRec{kind: "sent", s: idx})
 			r.trace = append(r.trace, fmt.Sprintf("x%d sent", idx))
+		} else if t.LastKind == "empty" {
+			r.trace = append(r.trace, fmt.Sprintf("x%d waits (queue was empty)", idx))
 		} else {
 			r.trace = append(r.trace, fmt.Sprintf("x%d next", idx))
 		}
@@ -643,6 +645,16 @@ func runFree(cs *Case) *Obs {
 }
 
 // hookWalkLock: schedule points inside coalesce.Queue (family S-walk-lock, see walklock.go).
+// hookEmpty: a sender parks between finding its queue empty and waiting for the wake-up
+// (coalesce hook next:empty), so that an insertion can land exactly there.
+func hookEmpty(point string) {
+	if r := curRun.Load(); r != nil && point == "next:empty" {
+		if t := r.sc.Self(); t != nil && t.Name[0] == 'x' {
+			t.Stop("empty", nil)
+		}
+	}
+}
+
 func hookWalkLock(point string) {
 	if r := curRun.Load(); r != nil && r.walkLock && point == "insert:checked" {
 		if t := r.sc.Self(); t != nil && t.Name[0] == 'k' {
